@@ -26,8 +26,9 @@ def r1_command_language(rep, src):
     rep.saw_regex('debian_support:_patch_re')
     rep.saw_regex('debian_support:_patch_re_b')
     alpha = rx.alphabet('str')
-    ascii_only = rx.from_function(alpha, [], 0, lambda s, sym: 0 if (s == 0 and sym < 128) else 1, lambda s: s == 0)
-    L = rx.regex_lang(r['pattern'], r['flags'], 'match', alpha=alpha).intersect(ascii_only)
+    # over all of Unicode: a command whose digits are not ASCII digits (ARABIC-INDIC, fullwidth ...) is malformed, and int() would
+    # convert them
+    L = rx.regex_lang(r['pattern'], r['flags'], 'match', alpha=alpha)
     ref = rx.regex_lang(REF_CMD, 0, 'fullmatch', alpha=alpha)
     w = L.equiv_witness(ref)
     if w is not None:
@@ -36,7 +37,7 @@ def r1_command_language(rep, src):
                  ('the command regex accepts the malformed command line %r' if side == 'left-only' else
                   'the command regex rejects the valid command line %r') % s, detail={'witness': s, 'side': side})
     else:
-        rep.ok('C18.R1', 'debian_support:_patch_re', 'command language', 'L_match(_patch_re) ∩ ASCII* = [0-9]+(,[0-9]+)?[acd]\\n?')
+        rep.ok('C18.R1', 'debian_support:_patch_re', 'command language', 'L_match(_patch_re) = [0-9]+(,[0-9]+)?[acd]\\n? over all text')
     if isinstance(rb['pattern'], bytes) and rb['pattern'] == r['pattern'].encode('utf-8') and rb['flags'] == r['flags']:
         rep.ok('C18.R1', 'debian_support:_patch_re_b', 'bytes twin', 'same pattern, encoded', nontrivial=False)
     else:
@@ -50,6 +51,8 @@ def r1_command_language(rep, src):
     Rm = rx.regex_lang(r['pattern'], r['flags'], 'match', list(range(1, ng + 1)), markers_all, alpha)
     digits = rx.regex_lang('[0-9]+', 0, 'fullmatch', alpha=alpha)
     anyl = rx.regex_lang('(?s:.*)', 0, 'fullmatch', alpha=alpha)
+    # (role inference only: which group is the number and which the command letter is read off the ASCII part of the language)
+    ascii_only = rx.from_function(alpha, [], 0, lambda s, sym: 0 if (s == 0 and sym < 128) else 1, lambda s: s == 0)
     asc = rx.lift(ascii_only, markers_all)
     for g in range(1, ng + 1):
         part = rx.has_group(alpha, markers_all, g)
@@ -789,7 +792,7 @@ def r5_application(rep, src):
 
 
 def check(src, rep, tier):
-    rep.explanation = ('C18: (R1) DFA of the command regex on ASCII input equals [0-9]+(,[0-9]+)?[acd]\\n?, bytes twin derived from the '
+    rep.explanation = ('C18: (R1) DFA of the command regex on all text equals [0-9]+(,[0-9]+)?[acd]\\n?, bytes twin derived from the '
                        'same text; (R2) every path of the command loop is enumerated per command letter × range form with first/last as '
                        'affine forms over the parsed numbers: yields must equal the ed table, malformed forms must raise ValueError, valid '
                        'forms must not be rejected; (R4) 0 ≤ first ≤ last is proved from the path guards by difference-bound entailment; '
